@@ -42,14 +42,14 @@ Section Circ.
   Variable Ang : Type.
   Variable ang_add : Ang -> Ang -> Ang.
   Variable ang_opp : Ang -> Ang.
-  Variable ang_small : Ang -> bool.
-  Variable ang_eqmod : Ang -> Ang -> bool.
+  Variable ang_small : bool -> Ang -> bool.
+  Variable ang_eqmod : bool -> Ang -> Ang -> bool.
   Variable ang_mpi2 : Ang.
   Variable ang_mpi4 : Ang.
   Variable T : tables.
 
   Notation pgate := (pgate Ang).
-  Notation gate_eq := (gate_eq Ang ang_eqmod).
+  Notation gate_eq := (gate_eq Ang ang_eqmod T).
   Notation gate_inverse := (gate_inverse Ang ang_opp ang_mpi2 ang_mpi4 T).
 
   Record circ : Type := Circ {
@@ -219,7 +219,7 @@ Section Circ.
   Definition is_small_rot (g : pgate) : res bool :=
     if smem (pname g) (rot_small T) then
       match pparam g with
-      | PNum a => Ok (ang_small a)
+      | PNum a => Ok (ang_small (smem (pname g) (small_long T)) a)
       | _ => Err TypeError                         (* abs("") / abs("x") raises *)
       end
     else Ok false.
